@@ -1634,7 +1634,7 @@ func init() {
 		for i, h := range c16findShortScalars(map[bool]int{true: 10, false: 3}[c.Tier == "thorough"]) {
 			emit(c16genSeqWith(rand.New(rand.NewSource(c.Seed*1000+int64(i))), h[0], h[1]+1+i%2))
 		}
-		n := c.Scale(1500, 40000)
+		n := c.Scale(1400, 40000)
 		for i := 0; i < n; i++ {
 			emit(c16gen(c))
 		}
